@@ -525,6 +525,39 @@ Proof.
   destruct (Rlt_dec (max_amp l) (SD c)); [reflexivity|contradiction].
 Qed.
 
+(* ... but for a curve that carries a finite k_2 the formula does return a number below the knee point, and it is not the Gassner
+   life of the Haibach rule: the lifetime multiple refers to the k_1 line extended below the knee (factor (SD/max)^(1-k_1)), whereas
+   cycles(max) is read on the k_2 branch.  The damage at the predicted cycles is (max/SD)^(k_1 - k_2), i.e. (SD/max)^(k_1 - 1) > 1 for
+   k_2 = 2 k_1 - 1 (found by an independent seeder probing the unchanged tree; known finding C11 `haibach-below-knee`). *)
+Theorem gassner_haibach_below_knee_damage c l k2v : curve_ok c -> coll_ok l -> 0 < max_occ l ->
+  0 < max_amp l < SD c -> k2 c = Some k2v ->
+  exists Ng, gassner_cycles lm_haibach c l = Some Ng /\
+             damage_sum (miner_haibach c) (apply_for Ng l) = npow (max_amp l / SD c) (k1 c - k2v).
+Proof.
+  intros Hc Hl Hm [Hma Hlev] Hk2. pose proof (k1_ne0 c Hc) as Hk0.
+  assert (HS : 0 < SD c) by apply Hc. assert (HN : 0 < ND c) by apply Hc.
+  pose proof (total_pos_of_occ l Hl Hm) as HT.
+  assert (Hcy : cycles c (max_amp l) = Some (ND c * npow (max_amp l / SD c) (- k2v))).
+  { unfold cycles, make_k. rewrite Hk2. destruct (Rlt_dec (max_amp l) (SD c)); [|lra].
+    destruct (Rle_dec (max_amp l) 0); [lra|reflexivity]. }
+  unfold gassner_cycles. rewrite Hcy. eexists. split; [reflexivity|].
+  unfold apply_for. rewrite damage_proportional. unfold damage_sum, damage.
+  pose proof Hl as Hl'. unfold coll_ok in Hl'. rewrite Forall_forall in Hl'.
+  rewrite (Rsum_map_scal (damage1 (miner_haibach c)) (haibach_term c (max_amp l))
+                         (npow (max_amp l / SD c) (k1 c) / ND c)).
+  2:{ intros [a n] Hin. destruct (Hl' _ Hin) as [Ha Hn]. now apply damage1_haibach_term. }
+  unfold lm_haibach. rewrite haibach_denominator.
+  assert (HD : 0 < Rsum (map (haibach_term c (max_amp l)) l)).
+  { destruct (max_occ_attained l Hm) as [[a n] [Hin [Hp He]]]. simpl in Hp, He.
+    apply Rsum_map_pos with (a, n); [|assumption|apply haibach_term_pos; lra].
+    intros [a' n'] Hin'. destruct (Hl' _ Hin') as [Ha' Hn']. now apply haibach_term_nonneg. }
+  assert (Hy : 0 < max_amp l / SD c) by (apply Rdiv_lt_0_compat; lra).
+  rewrite !npow_pos by assumption. unfold Rminus. rewrite Rpower_plus.
+  assert (0 < Rpower (max_amp l / SD c) (k1 c)) by (unfold Rpower; apply exp_pos).
+  assert (0 < Rpower (max_amp l / SD c) (- k2v)) by (unfold Rpower; apply exp_pos).
+  field. repeat split; lra.
+Qed.
+
 (* ---- curves with scatter whose native failure probability is not 50 %: cycles() / Fatigue.damage() read the curve at 50 % (c50),
    MinerHaibach.lifetime_multiple reads the knee point of the native curve (cn) *)
 Lemma lm_haibach_ext c c' l : SD c = SD c' -> k1 c = k1 c' -> lm_haibach c l = lm_haibach c' l.
